@@ -122,6 +122,11 @@ func negate(cond string) string {
 	return "!" + cond
 }
 
+// textDeco says which member decorations are also run with text siblings around the chain.
+func textDeco(name string) bool {
+	return name == "plain" || name == "tmpl-all" || strings.HasPrefix(name, "for-")
+}
+
 // enumShapes yields every case of family A; yield returns false to stop. With full=false (quick
 // tier) the longest chains (3 v-else-if) are combined with one sibling layout only and are left
 // out of the adjacent-chain and orphan products; everything else is the same full product.
@@ -222,6 +227,27 @@ func enumShapes(full bool, yield func(Case) bool) {
 								}
 								if !emit(place(pl, body, v, nx)) {
 									return
+								}
+								// the same layout with non-whitespace text siblings: a literal / an
+								// interpolated text run directly after the last member (behind the
+								// separator, so also comment + text) and, with siblings, one before the v-if
+								if (sib == 0 || sib == 3) && textDeco(d.name) && (full || sep == "" || sep == "wcw") {
+									for _, interp := range []bool{false, true} {
+										var tb []Node
+										if sib == 3 {
+											tb = append(tb, body[0], Node{Kind: "text", M: "b", Interp: interp, Sep: sep})
+											tb = append(tb, body[1:1+len(ms)]...)
+										} else {
+											tb = append(tb, body[:len(ms)]...)
+										}
+										tb = append(tb, Node{Kind: "text", M: "a", Interp: !interp, Sep: sep})
+										if sib == 3 {
+											tb = append(tb, body[1+len(ms):]...)
+										}
+										if !emit(place(pl, tb, merge(v, nil), merge(nx, nil))) {
+											return
+										}
+									}
 								}
 							}
 						}
@@ -574,7 +600,10 @@ func (g *nestGen) siblings(depth int, loopVars []string, lo, hi int) []Node {
 		if len(out) == 0 && depth == 0 {
 			sep = ""
 		}
-		switch k := rapid.IntRange(0, 25).Draw(g.t, "kind"); {
+		switch k := rapid.IntRange(0, 28).Draw(g.t, "kind"); {
+		case k >= 26:
+			// non-whitespace text sibling (never between chain members: a chain is emitted whole)
+			out = append(out, Node{Kind: "text", M: g.marker(), Sep: sep, Interp: rapid.Bool().Draw(g.t, "interp")})
 		case k >= 24 && g.plain && depth < g.maxDepth:
 			// a loop over plain values whose loop variable is named like a global condition variable
 			list := fmt.Sprintf("vl%d", len(g.vlists))
